@@ -248,3 +248,38 @@ Lemma sync_copies_all src dst :
   v_obs_rms (sync src dst) = v_obs_rms src /\ v_ret_rms (sync src dst) = v_ret_rms src /\
   v_returns (sync src dst) = v_returns dst /\ v_training (sync src dst) = v_training dst.
 Proof. repeat split. Qed.
+
+(* ---------- terminal observations (extension) ---------- *)
+Lemma frag_vn_terminal done has :
+  vn_term_skip done = negb done /\ vn_term_present has = has /\ forall b, vn_norm_obs_guard b = b.
+Proof. repeat split. Qed.
+
+(* the terminal observation of a finished sub-environment gets exactly the transform of the returned observations:
+   same function, same (post-update) statistics, same clip; other sub-environments' infos are not touched *)
+Lemma terminal_obs_same_transform p st obs rews dones terms ss sr i x :
+  nth_error dones i = Some true -> nth_error terms i = Some (Some x) ->
+  let '(st', out) := step_outputs p st obs rews dones terms ss sr in
+  nth_error (o_term out) i = Some (Some (normalize_obs_model p st' ss x)) /\
+  (forall j o, nth_error obs j = Some o -> nth_error (o_obs out) j = Some (normalize_obs_model p st' ss o)) /\
+  v_obs_rms st' = upd_obs_rms update p st obs.
+Proof.
+  intros Hd Ht. unfold step_outputs. cbn [o_term o_obs].
+  split; [|split; [|reflexivity]].
+  - assert (H : nth_error (combine dones terms) i = Some (true, Some x)).
+    { revert i terms Hd Ht. induction dones as [|d dones IH]; intros [|i] [|t terms] Hd Ht; cbn in *; try discriminate.
+      - inversion Hd; inversion Ht; subst. reflexivity.
+      - now apply IH. }
+    erewrite map_nth_error by exact H. reflexivity.
+  - intros j o Ho. now apply map_nth_error.
+Qed.
+
+Lemma terminal_obs_untouched_when_not_done p st ss t : term_out p st ss false t = t.
+Proof. reflexivity. Qed.
+
+(* a channel of a key that is not normalised (or norm_obs off) passes through unchanged *)
+Lemma norm_vec_passthrough p chans : forall ms ss x, length ms = length chans -> length ss = length chans -> length x = length chans ->
+  norm_vec p false chans ms ss x = x.
+Proof.
+  induction chans as [|c chans IH]; intros [|m ms] [|s ss] [|v x] H1 H2 H3; cbn in *; try discriminate; try reflexivity.
+  f_equal. apply IH; congruence.
+Qed.
